@@ -899,7 +899,7 @@ int write_msa_msf(struct msa* msa,char* outfile)
                 max_name_len = MACRO_MAX(max_name_len, (int)strnlen( msa->sequences[i]->name,MSA_NAME_LEN));
         }
 
-        aln_len = msa->sequences[0]->len;
+        aln_len = msa->alnlen;
         /* for (j = 0; j <= msa->sequences[0]->len;j++){ */
         /*         aln_len+=  msa->sequences[0]->gaps[j]; */
         /* } */
